@@ -99,7 +99,35 @@ def main():
                     continue
                 if not np.array_equal(od[nl:nl + n], c) or (od[:nl] != FILL).any() or (od[nl + n:] != FILL).any():
                     s.fail(f"extend_data:{step}", f"extend_dim moved or overwrote original samples (n={n}, kl={kl}, kr={kr})")
-    return s.finish("one case per (axis, width, position) / (axis, interval, closedness); distinct by inputs")
+    # ---- sequences: the result of one operation is a legitimate input of the next (attributes written by a step must
+    #      not mislead the following one)
+    for start, step, n in itertools.product(STARTS, [1.0, 0.5, 0.1], [3, 6]):
+        arr = axis(start, step, n)
+        if arr is None:
+            continue
+        c = arr.coords["time"].data
+
+        def lattice(k):
+            return start + k * step
+        s.case(None, ("seq", start, step, n))
+        try:
+            e1 = extend_dim(arr, "time", start=lattice(-2), stop=lattice(n + 1), fill_value=FILL, left_closed=True, right_closed=True)
+            e2 = extend_dim(e1, "time", start=lattice(-4), stop=lattice(n + 3), fill_value=FILL, left_closed=True, right_closed=True)
+            oc = e2.coords["time"].data
+            want = np.array([lattice(k) for k in range(-4, n + 4)])
+            if len(oc) != len(want) or np.abs(oc - want).max() > 1e-9 * max(1.0, abs(want).max()):
+                s.fail(f"sequence_extend_extend:{step}", f"extend_dim twice (start={start}, step={step}, n={n}): coordinates {oc[:3]}..{oc[-2:]} ({len(oc)}), expected the lattice {want[:3]}..{want[-2:]} ({len(want)})")
+            elif not np.array_equal(e2.data[4:4 + n], c):
+                s.fail(f"sequence_extend_extend_data:{step}", "extend_dim twice moved the original samples")
+            cr = crop_dim(e1, "time", start=lattice(0), stop=lattice(n - 1), left_closed=True, right_closed=True)
+            if not np.allclose(cr.coords["time"].data, c, rtol=0, atol=1e-9) or not np.array_equal(cr.data, c):
+                s.fail(f"sequence_extend_crop:{step}", f"extend_dim then crop_dim back to the original closed range (start={start}, step={step}, n={n}) gives {cr.coords['time'].data}, expected {c}")
+            back = extend_dim(cr, "time", start=lattice(-2), stop=lattice(n + 1), fill_value=FILL, left_closed=True, right_closed=True)
+            if back.sizes["time"] != n + 4 or not np.array_equal(back.data[2:2 + n], c):
+                s.fail(f"sequence_extend_crop_extend:{step}", f"extend, crop, extend again (start={start}, step={step}, n={n}): {back.sizes['time']} samples, expected {n + 4}")
+        except Exception as e:
+            s.fail(f"sequence_raises:{step}:{type(e).__name__}", f"a sequence of extend_dim / crop_dim calls raised {type(e).__name__}: {str(e)[:160]} (start={start}, step={step}, n={n})")
+    return s.finish("one case per (axis, width, position) / (axis, interval, closedness) / operation sequence; distinct by inputs")
 
 
 if __name__ == "__main__":
